@@ -20,6 +20,19 @@
 //	          (R c t tag err) ProcessResponse(reply carrying the id of command c, sender t)
 //	          (F n t tag err) ProcessResponse(reply carrying the n-th foreign id, sender t)
 //	          (D c)           wait until the callback of command c has been received
+//	          (L c)           "late listener": a command that has an (L c) in the script gets its
+//	                          callback listener only HERE (every other command is listened to
+//	                          from the start, as a caller that does Enqueue; <-notify)
+//	          (B c)           before (L c), c at the head of its queue: wait until the queue's
+//	                          consumer goroutine is AT REST with respect to c and record where —
+//	                          `held`: blocked in the send on c's callback channel inside
+//	                          CommandQueue.Start's closure (goroutine dump: `[chan send]`);
+//	                          `idle`: parked in its receive on the queue channel although
+//	                          Enqueue(c) had returned, or `passed`: the send function was called
+//	                          for a command enqueued behind c on the same queue — both mean that
+//	                          the loop body of c is OVER while nobody has received from c's
+//	                          (unbuffered) callback channel: the consumer did not wait for the
+//	                          caller (with a non-blocking hand-over the answer is gone for good)
 //
 // Obs    : (events final)   the linearisation the harness observed (one mutex):
 //
@@ -39,6 +52,12 @@
 //	                           before this reply was looked up. A clock reading is used only
 //	                           as a witness of an ORDER, never as a deadline.
 //	(D c result)               a value arrived on c's callback channel
+//	(L c)                      the listener of late-listener command c is started (recorded BEFORE)
+//	(B c held|idle|passed)     where the consumer goroutine of c's queue was found (see above). Also
+//	                           recorded (idle/passed only) while WAITING for a callback, when one
+//	                           stop-the-world goroutine dump shows the consumer past c and c's
+//	                           listener parked in its receive with nothing received: a proof that
+//	                           the answer will never come, not a deadline
 //	final := ((c result)*)     every received result read AGAIN at the very end
 //	result := nil | (single entry) | (multi id ((t entry)*) (errs t*))
 //	entry  := (own id sender tag err) | (synth id send|timeout) | (other text)
@@ -163,6 +182,164 @@ type run struct {
 	lastKey  map[[2]int]chan struct{} // model (id,t) -> previous ProcessResponse on that key returned
 	endCh    chan struct{}
 	fail     error
+
+	// the hand-over of the answer (see handover.go)
+	qOf       []int         // command -> queue
+	late      []bool        // the script has an (L c): the listener starts only there
+	listening []bool        // listener started (guarded by mu)
+	lisGid    []int64       // goroutine id of c's listener, 0 until it runs (guarded by mu)
+	lost      []bool        // a (B c idle|passed) has been recorded: c's answer is gone (guarded by mu)
+	consGid   map[int]int64 // queue -> id of the goroutine that called Start()
+	qorder    map[int][]int // queue -> sequentially enqueued commands, in order (guarded by mu)
+	notify    []chan controlcommands.MesosCommandResponse
+}
+
+// passedBy: the send function has been entered for a command enqueued behind c on c's queue.
+// Call with mu held.
+func (r *run) passedBy(c int) bool {
+	after := false
+	for _, x := range r.qorder[r.qOf[c]] {
+		if x == c {
+			after = true
+		} else if after && !r.firstS[x].IsZero() {
+			return true
+		}
+	}
+	return false
+}
+
+// headOf: every command enqueued (sequentially) before c on c's queue has been answered or is known lost.
+// Call with mu held.
+func (r *run) headOf(c int) bool {
+	for _, x := range r.qorder[r.qOf[c]] {
+		if x == c {
+			return true
+		}
+		select {
+		case <-r.doneCh[x]:
+		default:
+			if !r.lost[x] {
+				return false
+			}
+		}
+	}
+	return false
+}
+
+// lossProof: "idle" / "passed" when ONE goroutine dump shows that the consumer of c's queue is
+// past c (parked in its receive on the queue channel although Enqueue(c) had returned, or the
+// send function had already been entered for a command behind c) while c's listener is parked
+// in its receive and has received nothing. The hand-over statement of c has then been executed
+// without its only possible receiver: no answer will ever arrive. "" = no proof (keep waiting).
+func (r *run) lossProof(c int) string {
+	r.mu.Lock()
+	gid, passed, listening := r.lisGid[c], r.passedBy(c), r.listening[c]
+	r.mu.Unlock()
+	if !listening || gid == 0 {
+		return ""
+	}
+	dump := allStacks()
+	cons := consumerIn(dump, r.consGid[r.qOf[c]])
+	if !parkedIn(dump, gid) {
+		return ""
+	}
+	r.mu.Lock()
+	n := len(r.results[c])
+	r.mu.Unlock()
+	if n != 0 {
+		return ""
+	}
+	switch {
+	case cons == "recv":
+		return "idle"
+	case passed:
+		return "passed"
+	}
+	return ""
+}
+
+// awaitDone waits for c's callback. A missing answer becomes part of the observation only
+// with a proof (lossProof); the ceiling alone yields `inconclusive`.
+func (r *run) awaitDone(c int) error {
+	r.mu.Lock()
+	gone := r.lost[c]
+	r.mu.Unlock()
+	if gone {
+		return nil
+	}
+	limit := ceiling() + r.cmds[c].tmo
+	t0 := time.Now()
+	tick := 100 * time.Millisecond
+	for {
+		select {
+		case <-r.doneCh[c]:
+			return nil
+		case <-time.After(tick):
+		}
+		if why := r.lossProof(c); why != "" {
+			r.mu.Lock()
+			r.record(sx.L(sx.A("B"), sx.I(c), sx.A(why)))
+			r.lost[c] = true
+			r.mu.Unlock()
+			return nil
+		}
+		if time.Since(t0) > limit {
+			trip()
+			return fmt.Errorf("inconclusive: command %d not completed within ceiling + its ResponseTimeout", c)
+		}
+		if tick < time.Second {
+			tick *= 2
+		}
+	}
+}
+
+// probe: the (B c) action. No listener of c exists yet, so nobody can have received its answer.
+func (r *run) probe(c int) error {
+	t0 := time.Now()
+	pause := 100 * time.Microsecond
+	for {
+		r.mu.Lock()
+		passed := r.passedBy(c)
+		r.mu.Unlock()
+		st := ""
+		switch cons := consumerIn(allStacks(), r.consGid[r.qOf[c]]); {
+		case cons == "send":
+			st = "held"
+		case cons == "recv":
+			st = "idle"
+		case passed:
+			st = "passed"
+		}
+		if st != "" {
+			r.mu.Lock()
+			r.record(sx.L(sx.A("B"), sx.I(c), sx.A(st)))
+			if st != "held" {
+				r.lost[c] = true
+			}
+			r.mu.Unlock()
+			return nil
+		}
+		if time.Since(t0) > ceiling()+r.cmds[c].tmo {
+			trip()
+			return fmt.Errorf("inconclusive: the consumer of command %d's queue did not come to rest within its ceiling", c)
+		}
+		time.Sleep(pause)
+		if pause < 20*time.Millisecond {
+			pause *= 2
+		}
+	}
+}
+
+// commitOver: c is a late-listener command nobody listens to yet, it is at the head of its
+// queue and the consumer is blocked handing over: every per-target call of c has returned.
+func (r *run) commitOver(c int) bool {
+	if c < 0 || c >= len(r.cmds) || !r.late[c] {
+		return false
+	}
+	r.mu.Lock()
+	ok := !r.listening[c] && r.headOf(c)
+	r.mu.Unlock()
+	return ok && consumerIn(allStacks(), r.consGid[r.qOf[c]]) == "send"
 }
 
 func (r *run) record(n *sx.Node) {
@@ -258,6 +435,28 @@ func (r *run) settle(returned chan struct{}, c int) error {
 	var done chan struct{}
 	if c >= 0 && c < len(r.doneCh) {
 		done = r.doneCh[c]
+	}
+	t0 := time.Now()
+	for hold := c >= 0 && c < len(r.cmds) && r.late[c]; hold; {
+		// a reply taken by a caller that then timed out blocks in ProcessResponse for ever; its
+		// command normally completes (done) — unless nobody listens yet: then the end of its commit
+		// shows as the consumer blocked in the hand-over
+		select {
+		case <-returned:
+			return nil
+		case <-done:
+			return nil
+		case <-time.After(10 * time.Millisecond):
+		}
+		if r.commitOver(c) {
+			return nil
+		}
+		r.mu.Lock()
+		hold = !r.listening[c]
+		r.mu.Unlock()
+		if time.Since(t0) > ceiling() {
+			break
+		}
 	}
 	select {
 	case <-returned:
@@ -530,10 +729,22 @@ func runImpl(input string) (obs string, err error) {
 	}
 	r := &run{events: sx.L(), cmds: cmds, idOf: map[xid.ID]int{}, sendSeen: map[[2]int]chan struct{}{},
 		sendAt: map[[2]int]time.Time{}, sendDur: map[[2]int]time.Duration{},
-		lastKey: map[[2]int]chan struct{}{}, endCh: make(chan struct{})}
+		lastKey: map[[2]int]chan struct{}{}, endCh: make(chan struct{}),
+		qOf: make([]int, len(cmds)), late: make([]bool, len(cmds)), listening: make([]bool, len(cmds)),
+		lisGid: make([]int64, len(cmds)), lost: make([]bool, len(cmds)), consGid: map[int]int64{}, qorder: map[int][]int{}}
+	for _, a := range script {
+		if a.At(0).Str() == "L" {
+			if c := a.At(1).Int(); a.Len() == 2 && c >= 0 && c < len(cmds) && !r.late[c] {
+				r.late[c] = true
+			} else {
+				return "", fmt.Errorf("bad L")
+			}
+		}
+	}
 	r.servent = controlcommands.NewServent(r.send)
 	queues := map[int]*controlcommands.CommandQueue{}
 	notify := make([]chan controlcommands.MesosCommandResponse, len(cmds))
+	r.notify = notify
 	env := uid.New()
 	for c, cs := range cmds {
 		var recv []controlcommands.MesosCommandTarget
@@ -556,9 +767,18 @@ func runImpl(input string) (obs string, err error) {
 		r.results = append(r.results, nil)
 		r.firstS = append(r.firstS, time.Time{})
 		notify[c] = make(chan controlcommands.MesosCommandResponse) // unbuffered, as the callers in core/task
+		r.qOf[c] = cs.q
 		if queues[cs.q] == nil {
 			q := controlcommands.NewCommandQueue(r.servent)
-			q.Start()
+			// started from a goroutine of its own whose id is known: the dump names the
+			// creator of the consumer goroutine
+			started := make(chan int64)
+			go func() {
+				id := curGoid()
+				q.Start()
+				started <- id
+			}()
+			r.consGid[cs.q] = <-started
 			queues[cs.q] = q
 		}
 	}
@@ -584,10 +804,33 @@ func runImpl(input string) (obs string, err error) {
 		if normal {
 			close(r.endCh)
 		}
+		// a late-listener command whose listener was never started (aborted scenario): take its
+		// answer, should the consumer be (or get) blocked handing it over
+		r.mu.Lock()
+		for c := range cmds {
+			if r.late[c] && !r.listening[c] {
+				go func(ch chan controlcommands.MesosCommandResponse) {
+					select {
+					case <-ch:
+					case <-time.After(2 * longTimeout()):
+					}
+				}(notify[c])
+			}
+		}
+		r.mu.Unlock()
 	}()
-	// one listener per callback channel: records every value that ever arrives
-	for c := range cmds {
+	// one listener per callback channel: records every value that ever arrives. A caller that
+	// does `Enqueue(cmd, notify); <-notify` is listening "from the start"; a late-listener
+	// command gets its listener at its (L c).
+	listen := func(c int) {
+		r.mu.Lock()
+		r.listening[c] = true
+		r.mu.Unlock()
 		go func(c int) {
+			gid := curGoid()
+			r.mu.Lock()
+			r.lisGid[c] = gid
+			r.mu.Unlock()
 			first := true
 			for {
 				select {
@@ -601,7 +844,7 @@ func runImpl(input string) (obs string, err error) {
 					r.mu.Unlock()
 					if first {
 						first = false
-						if !st.IsZero() && !cmds[c].long {
+						if !st.IsZero() && !cmds[c].long && !r.late[c] { // a late listener's own delay is not the servent's
 							noteRatio(float64(now.Sub(st)) / float64(cmds[c].tmo))
 						}
 						if cmds[c].long && strings.Contains(rn.String(), "timeout") {
@@ -614,6 +857,11 @@ func runImpl(input string) (obs string, err error) {
 				}
 			}
 		}(c)
+	}
+	for c := range cmds {
+		if !r.late[c] {
+			listen(c)
+		}
 	}
 
 	valid := func(c int) bool { return c >= 0 && c < len(cmds) }
@@ -630,10 +878,18 @@ func runImpl(input string) (obs string, err error) {
 				cs = append(cs, n.Int())
 			}
 			if len(cs) == 1 {
+				r.mu.Lock()
+				r.qorder[cmds[cs[0]].q] = append(r.qorder[cmds[cs[0]].q], cs[0])
+				r.mu.Unlock()
 				if err := queues[cmds[cs[0]].q].Enqueue(r.real[cs[0]], notify[cs[0]]); err != nil {
 					return "", err
 				}
 			} else {
+				for _, c := range cs {
+					if r.late[c] {
+						return "", fmt.Errorf("bad E: late-listener command in a concurrent group")
+					}
+				}
 				var wg sync.WaitGroup
 				errs := make([]error, len(cs))
 				for i, c := range cs {
@@ -692,11 +948,40 @@ func runImpl(input string) (obs string, err error) {
 			if !valid(c) || !enqueued[c] {
 				return "", fmt.Errorf("bad D")
 			}
-			select {
-			case <-r.doneCh[c]:
-			case <-time.After(ceiling() + cmds[c].tmo):
-				trip()
-				return "", fmt.Errorf("inconclusive: command %d not completed within ceiling + its ResponseTimeout", c)
+			r.mu.Lock()
+			l := r.listening[c]
+			r.mu.Unlock()
+			if !l {
+				return "", fmt.Errorf("bad D: nobody listens to command %d", c)
+			}
+			if err := r.awaitDone(c); err != nil {
+				return "", err
+			}
+		case "L":
+			c := a.At(1).Int()
+			r.mu.Lock()
+			l := r.listening[c]
+			if !l {
+				r.record(sx.L(sx.A("L"), sx.I(c)))
+			}
+			r.mu.Unlock()
+			if l {
+				return "", fmt.Errorf("bad L")
+			}
+			listen(c)
+		case "B":
+			c := a.At(1).Int()
+			if a.Len() != 2 || !valid(c) || !enqueued[c] || !r.late[c] {
+				return "", fmt.Errorf("bad B")
+			}
+			r.mu.Lock()
+			ok := !r.listening[c] && r.headOf(c)
+			r.mu.Unlock()
+			if !ok {
+				return "", fmt.Errorf("bad B: command %d is listened to already or not at the head of its queue", c)
+			}
+			if err := r.probe(c); err != nil {
+				return "", err
 			}
 		default:
 			return "", fmt.Errorf("bad action %q", a.At(0).Str())
@@ -707,11 +992,8 @@ func runImpl(input string) (obs string, err error) {
 		if !enqueued[c] {
 			continue
 		}
-		select {
-		case <-r.doneCh[c]:
-		case <-time.After(ceiling() + cmds[c].tmo):
-			trip()
-			return "", fmt.Errorf("inconclusive: command %d not completed within ceiling + its ResponseTimeout", c)
+		if err := r.awaitDone(c); err != nil {
+			return "", err
 		}
 	}
 	normal = true
@@ -778,11 +1060,15 @@ func init() {
 		Nontrivial: nontrivial,
 		Rule: "scripted scenarios on the real Servent+CommandQueue(s): 1..4 commands x 0..8 targets from a shared pool of 10, " +
 			"per-target behaviour in {reply, error reply, send failure, silence->timeout (ResponseTimeout 25..60 ms), reply from inside send " +
-				"(half of them with a yield so that the reply is processed before the send call returns)}, optional per-target arguments, " +
+			"(half of them with a yield so that the reply is processed before the send call returns)}, optional per-target arguments, " +
 			"plus duplicate / late / early / foreign-id / wrong-sender / other-command replies in scripted arrival orders, sequential or " +
-			"concurrent Enqueue, one queue (as the core) or two queues on one Servent; the observed linearisation is replayed on the Lean " +
+			"concurrent Enqueue, one queue (as the core) or two queues on one Servent; 1 scenario in 7 has LATE LISTENERS: 1..4 fast commands " +
+			"enqueued while nobody receives on their callback channel (also pipelined: all enqueued first), the consumer goroutine probed by " +
+			"goroutine dump (must be blocked in the send on the callback channel; replies / foreign ids / further Enqueues meanwhile), " +
+			"listeners started in any order (before the Enqueue, during the commit, while held, while queued behind a held command); " +
+			"the observed linearisation is replayed on the Lean " +
 			"model as a monitor (incl. the response timeout and arguments of the command object each send call is handed, and the returns " +
-				"of ProcessResponse) and Spec.C12 is evaluated on it; non-trivial = >=2 commands or >=2 targets, and >=1 reply that is not the " +
+			"of ProcessResponse) and Spec.C12 is evaluated on it; non-trivial = >=2 commands or >=2 targets, and >=1 reply that is not the " +
 			"first own reply of a pending call (dup/late/early/foreign/wrong) or >=1 timeout/send failure; distinct by input text",
 		Shrink:   shrinkCands,
 		Search:   search,
@@ -791,12 +1077,14 @@ func init() {
 		Teardown: teardown,
 		TrustedBase: []string{
 			"harness/props/c12 (scenario driver, event recorder under one mutex, result classifier by response object fields / error text)",
-			"Lean driver Driver/C12.lean (monitor replay: internal steps timeout/recv placed from the reported outcomes)",
+			"Lean driver Driver/C12.lean (monitor replay: internal steps timeout/recv placed from the reported outcomes; the rendezvous of a callback placed no later than the next send of the same queue)",
+			"harness/props/c12/handover.go (reading of runtime.Stack: consumer goroutine of a queue recognised by the id of the goroutine that called Start(); `[chan send]` / `[chan receive]` with the closure of CommandQueue.Start as innermost non-runtime frame)",
 		},
 		Assumptions: []string{
 			"distinct command ids (xid.New) and per-command distinct targets (Tasks.GetMesosCommandTargets)",
 			"the order in which the harness records events under its mutex is a linearisation of the calls it makes/receives; a reply is issued on a key only after the previous reply on that key returned or its command completed",
 			"wall-clock: 'within its response timeout' is observed (timing.json: max (send..callback)/ResponseTimeout), not verified; what IS checked without a clock: every target is waited for with the command's own ResponseTimeout (the value carried by the command object handed to the send function, which RunCommand arms its timer with)",
+			"Go channel semantics used as PROOF (never a deadline): a goroutine parked in a receive on a buffered channel means the channel is empty; after Enqueue(c) returned, a consumer parked in its receive on the queue channel has finished the loop body of c; an unbuffered callback channel whose only receiver is parked with nothing received has handed nothing over. A missing answer enters the observation only with such a proof (event `(B c idle|passed)`); a bare ceiling stays `inconclusive`",
 			"Go timers do not fire early on the monotonic clock: a ProcessResponse that returned less than the call's response timeout after the send function was entered was looked up before the caller's timeout branch could run (flag `early` of the P event)",
 		},
 	})
